@@ -31,7 +31,7 @@ ASSUMPTIONS = [
     'the value column of a table input is named after the input, or "data", or is the only non-key column (the three selections documented in join); an extra column (junk / <input>_x / <first key>_x; or "data" next to a column '
     'named after the input, which then wins) only accompanies the first two',
     'names: plain scheme inputs (a, y, c, z) keys (k, j, m); nested scheme inputs (a, aa, ka, data_a) keys (k, kk, k_a) - substrings / prefixes / suffixes of one another and of "data", never equal to each other, to data / expiry, or to a dictable attribute',
-    'scalars, table values and defaults are None, ints, finite floats or strings (a callable default is a formula, lists/tuples would be spread over rows by dictable); defaults may also name an input that is not supplied (no effect)',
+    'table values and defaults are None, ints, finite floats or strings (a callable default is a formula, lists/tuples would be spread over rows by dictable); a non-table input is one of these or a list/tuple of 0-4 ints, which is one value handed whole to every row; defaults may also name an input that is not supplied (no effect)',
     'defaults: an explicit dict (possibly {}) is the complete list of defaults whatever defaults f has in its signature; with defaults = None the keyword defaults of f\'s signature are the defaults '
     '(perdictable docstring / argspec_defaults; join() itself has no f, there None means no defaults); every parameter of f is always supplied; if_none / output_is_input / include_inputs / col / renames keep their default values',
     'f has one parameter per input (those with a signature default last) and none called data or expiry; it returns a tuple of its arguments, its first argument, None, 0, "", False or a fresh []',
@@ -55,6 +55,9 @@ LARGE_N = [64, 200, 100, 65, 128]
 LARGE_MOD = 251
 
 _val = st.one_of(st.none(), st.integers(0, 5), st.sampled_from([0.5, 2.0]), st.sampled_from(['u', 'uv', '']))
+# a non-table input may itself be a sequence (a vector of weights, say): it is one value, handed whole to every row - also when its length is the number of rows
+_seqval = st.tuples(st.sampled_from(['list', 'tuple']), st.lists(st.integers(0, 5), max_size=4)).map(list)
+_scalar_input = st.one_of(_val, _val, _val, _seqval)
 _old = st.one_of(st.sampled_from(['old', 'old2']), st.none(), st.sampled_from([0, '', 0.0, False]), st.integers(1, 5))
 
 
@@ -222,7 +225,7 @@ def _case(draw, tier, want):
 
     for name in names:
         if draw(st.sampled_from([0, 0, 0, 1])) == 1:
-            inputs.append(dict(name=name, kind='scalar', value=draw(_val)))
+            inputs.append(dict(name=name, kind='scalar', value=draw(_scalar_input)))
             continue
         keys, vals = table_keys()
         valcol, extra = valcol_extra()
@@ -457,6 +460,11 @@ def _classes(spec, K, built, used_names):
         cls.append('scalar_broadcast')
     if any(i['kind'] == 'scalar' and _is_falsy_spec(i['value']) for i in spec['inputs']):
         cls.append('falsy_scalar')
+    seqs = [i['value'] for i in spec['inputs'] if i['kind'] == 'scalar' and isinstance(i['value'], list) and i['value'][0] in ('list', 'tuple')]
+    if seqs:
+        cls.append('sequence_valued_scalar')
+        if any(len(v[1]) == len(K or []) for v in seqs) and len(K or []) >= 2:
+            cls.append('sequence_valued_scalar_as_long_as_the_result')
     if any(not t['keys'] for t in tables):
         cls.append('empty_table')
     if any(i['kind'] == 'table' and not i['keys'] for i in spec['inputs'][1:-1]):
@@ -819,7 +827,7 @@ SUBS = [
         rule=_RULE + 'Oracle: key-set algebra (intersection of the tables without default, else union of those with default), rows ascending by key, value = f(row) with f '
              'a recording closure, f called exactly once per row (multiset of argument tuples), all scalars -> f(...) itself, empty key set -> None or no rows. '
              'non-trivial = >= 2 tables with non-empty non-total overlap, or a default that fills a missing key',
-        floor=0.15, class_floors={'partial_overlap': 0.1, 'default_extends_keys': 0.03, 'all_scalars': 0.02, 'empty_result': 0.03, 'on_not_alphabetical': 0.1,
+        floor=0.15, class_floors={'sequence_valued_scalar': 0.05, 'sequence_valued_scalar_as_long_as_the_result': 0.004, 'partial_overlap': 0.1, 'default_extends_keys': 0.03, 'all_scalars': 0.02, 'empty_result': 0.03, 'on_not_alphabetical': 0.1,
                                   'disjoint_tables': 0.01, 'empty_table': 0.03, 'scalar_broadcast': 0.15, 'rows>=3': 0.2, 'nan_key': 0.03,
                                   'large': 0.04, 'large_result>=64': 0.02, 'one_table_8x_longer': 0.008, 'same_keyset_other_order': 0.04,
                                   'same_keyset_same_ends_other_order': 0.005, 'same_length_same_ends_other_keys': 0.005, 'table_presorted': 0.1,
@@ -833,7 +841,7 @@ SUBS = [
     Sub('join', lambda tier: _case(tier, 'join'), run_join, quick=3000, thorough=12000,
         rule=_RULE + 'join(inputs, on, defaults = ...) against the same key-set model: exact key set, ascending order, one column per input holding the table value / default / '
              'broadcast scalar. non-trivial as for perdictable',
-        floor=0.15, class_floors={'partial_overlap': 0.1, 'default_extends_keys': 0.02, 'empty_result': 0.03, 'on_not_alphabetical': 0.1, 'scalar_broadcast': 0.15,
+        floor=0.15, class_floors={'sequence_valued_scalar': 0.05, 'sequence_valued_scalar_as_long_as_the_result': 0.004, 'partial_overlap': 0.1, 'default_extends_keys': 0.02, 'empty_result': 0.03, 'on_not_alphabetical': 0.1, 'scalar_broadcast': 0.15,
                                   'valcol=self+data': 0.05, 'rows>=3': 0.2, 'large': 0.04, 'large_result>=64': 0.02, 'one_table_8x_longer': 0.008, 'same_keyset_other_order': 0.04,
                                   'same_keyset_same_ends_other_order': 0.005, 'same_length_same_ends_other_keys': 0.005, 'table_presorted': 0.1, 'names_nested': 0.3,
                                   'second_call': 0.2, 'falsy_default_fills_row': 0.01, 'default_for_absent_input': 0.1, 'positional': 0.2, 'falsy_key': 0.2}),
